@@ -112,7 +112,16 @@ def build(fam, seq, types=None, route="append", fcls="base"):
     return F(data=data)
 
 
-def foreign(kind, fam):
+def foreign(kind, fam, fa=None, types=None, case=None):
+    # objects that are not files but are, or carry, a container equal to the file's own
+    if kind == "own_container":
+        return fa.data
+    if kind == "twin_container":
+        return build(fam, case["a"], types, "append").data
+    if kind == "holder":
+        import types as _t
+
+        return _t.SimpleNamespace(data=build(fam, case["a"], types, "append").data)
     if kind == "int":
         return 5
     if kind == "none":
@@ -129,16 +138,27 @@ def run_impl(case):
             RF, classes = fsup.mk_register_file(case["regs"])
             x = codec.dec_str(case["content"])
             f1, f2 = RF.read(x), RF.read(x)
-            b1, b2 = StringIO(), StringIO()
-            f1.write(b1)
-            f2.write(b2)
-            return {"checks": {"read_twice_files_equal": bool(f1 == f2), "read_twice_reverse_equal": bool(f2 == f1), "read_twice_not_unequal": not (f1 != f2), "read_twice_data_equal": bool(f1.data == f2.data), "equal_files_write_identical_output": b1.getvalue() == b2.getvalue()}}
+
+            def written(f):
+                # a value that cannot be rendered (an infinity in E notation: OverflowError in
+                # floor(log10(x))) makes write() raise; two equal files must then fail alike
+                b = StringIO()
+                try:
+                    f.write(b)
+                    return ("ok", b.getvalue())
+                except Exception as e:
+                    return ("raised", type(e).__name__)
+
+            return {"checks": {"read_twice_files_equal": bool(f1 == f2), "read_twice_reverse_equal": bool(f2 == f1), "read_twice_not_unequal": not (f1 != f2), "read_twice_data_equal": bool(f1.data == f2.data), "equal_files_write_identical_output": written(f1) == written(f2)}}
         fam = case["family"]
         types = mk_classes(fam)
         fa = build(fam, case["a"], types, case.get("route_a", "append"), case.get("fcls_a", "base"))
         if case["b"] is None:
-            rhs = foreign(case["foreign"], fam)
-            rdata = rhs.data if hasattr(rhs, "data") else rhs
+            rhs = foreign(case["foreign"], fam, fa, types, case)
+            if case["foreign"] in ("own_container", "twin_container", "holder"):
+                rdata = 5  # the container-level comparison is not the subject of these cases
+            else:
+                rdata = rhs.data if hasattr(rhs, "data") else rhs
         else:
             rhs = build(fam, case["b"], types, case.get("route_b", "append"), case.get("fcls_b", "base"))
             rdata = rhs.data
@@ -215,7 +235,7 @@ print(c15.run_impl(case))
 
 
 # ------------------------------------------------------------------ generators
-VALS = [None, {"i": 0}, {"i": 1}, {"i": -7}, {"s": []}, {"s": codec.enc_str("ab")}, {"s": codec.enc_str("a b")}, codec.enc_val(1.5), codec.enc_val(0.0), {"d": [2021, 2, 3, 0, 0, 0, 0]}]
+VALS = [None, {"i": 0}, {"i": 1}, {"i": -7}, {"s": []}, {"s": codec.enc_str("ab")}, {"s": codec.enc_str("a b")}, codec.enc_val(1.5), codec.enc_val(0.25), {"d": [2021, 2, 3, 0, 0, 0, 0]}]  # no float that equals one of the ints (0 == 0.0 is outside the model, see ASSUMPTIONS)
 
 
 def rand_seq(rng, n):
@@ -224,7 +244,7 @@ def rand_seq(rng, n):
 
 def mutate_value(rng, v):
     # a different value of the same Python type (cross-type numeric equality is outside the model)
-    pools = [[{"i": 0}, {"i": 1}, {"i": -7}], [{"s": []}, {"s": codec.enc_str("ab")}, {"s": codec.enc_str("a b")}], [codec.enc_val(1.5), codec.enc_val(0.0)]]
+    pools = [[{"i": 0}, {"i": 1}, {"i": -7}], [{"s": []}, {"s": codec.enc_str("ab")}, {"s": codec.enc_str("a b")}], [codec.enc_val(1.5), codec.enc_val(0.25)]]
     for pool in pools:
         if v in pool:
             return rng.choice([x for x in pool if x != v])
@@ -257,7 +277,7 @@ def random_pair(rng):
     elif rel == "independent":
         b = rand_seq(rng, rng.randrange(1, 9))
     elif rel == "foreign":
-        b, fk = None, rng.choice(["int", "none", "str", "otherfamily"])
+        b, fk = None, rng.choice(["int", "none", "str", "otherfamily", "own_container", "twin_container", "holder"])
     case = {"shape": "pair", "family": fam, "a": a, "b": b, "rel": rel, "route_a": rng.choice(ROUTES), "route_b": rng.choice(ROUTES)}
     if rng.random() < 0.4:
         # the two files are of different classes of the same family
